@@ -273,6 +273,11 @@ func genC17(env *core.Env, emit func(core.Case)) {
 				return nil, errors.New("scripted dial error")
 			}
 			req, _ := http.NewRequest("GET", "https://"+host+"/", nil)
+			if requireECH {
+				// a Host header of the caller's choosing (domain fronting, a reverse proxy): it is what is sent
+				// as the authority, not what is dialled or authenticated
+				req.Host = "front.example"
+			}
 			resp, rerr := tr.RoundTrip(req)
 			if resp != nil {
 				resp.Body.Close()
